@@ -771,10 +771,11 @@ theorem endBlock_burnt (s : St) (fails : List (Nat × Nat)) : Burnt s (endBlock 
 
 -- ---------------------------------------------------------------- the classification, one step
 
-/-- every op other than a withdrawal, a fraud punishment or a block end lowers no bond -/
+/-- every op other than a withdrawal, a fraud punishment, a punish proposal or a block end lowers no bond -/
 theorem apply_noDec {s s' : St} {o : Op} (e : apply s o = .ok s')
     (h1 : ∀ a amt, o ≠ .bondDec a amt) (h2 : ∀ a, o ≠ .unbond a)
-    (h3 : ∀ au ra hh rev a rw, o ≠ .fraud au ra hh rev (some a) rw) (h4 : ∀ f, o ≠ .end_ f) : NoDec s s' := by
+    (h3 : ∀ au ra hh rev a rw, o ≠ .fraud au ra hh rev (some a) rw) (h4 : ∀ f, o ≠ .end_ f)
+    (h5 : ∀ au a rw, o ≠ .punish au a rw) : NoDec s s' := by
   cases o with
   | createRollapp id owner mb =>
     simp only [apply] at e
@@ -803,6 +804,7 @@ theorem apply_noDec {s s' : St} {o : Op} (e : apply s o = .ok s')
     · exact tf.noDec
     · subst hp; exact absurd rfl (h3 au ra hh rev a rw)
   | obsolete au vs => exact (markObsolete_tok e).noDec
+  | punish au a rw => exact absurd rfl (h5 au a rw)
   | begin_ dt => simp only [apply] at e; injection e with e; subst e; exact (TokFrame.of_seqs (beginBlock_seqs' s dt)).noDec
   | end_ f => exact absurd rfl (h4 f)
 
